@@ -13,6 +13,7 @@ import (
 // Run a hermes simulation setup
 func (session *HermesSession) Run(workingDir string, args []string, logID string, out chan<- *RunReturn, logout chan<- string) {
 
+	vevent("run.start", "id", logID, "args", args)
 	returnedWithErr := func() error {
 		// Shared
 		var SWCY float64
@@ -226,6 +227,7 @@ func (session *HermesSession) Run(workingDir string, args []string, logID string
 		}
 
 		Init(&g)
+		vprobe("run.config", &g, &herInputVars, &driConfig, &herPath)
 
 		// ************ OEFFNEN UND ANLEGEN DES HEADERS FUER LANGZEITRECHNUNG PFLANZENERGEBNISSE ************
 		// ************ OPEN AND CREATE HEADER FOR LONG TERM CALCULATION OF CROP RESULTS ************
@@ -316,6 +318,7 @@ func (session *HermesSession) Run(workingDir string, args []string, logID string
 				}
 			}
 
+			vprobe("day.top", &g, ZEIT)
 			g.TAG.Add(g.DT.Index)
 			if g.TAG.Index+1 > g.JTAG {
 				g.J++
@@ -355,6 +358,7 @@ func (session *HermesSession) Run(workingDir string, args []string, logID string
 				g.TJAHRSUM = g.TJAHRSUM + g.TEMP[g.TAG.Index]*g.DT.Num
 			}
 			g.AKTUELL = g.Kalender(ZEIT)
+			vprobe("day.weather", &g, ZEIT, &bbbShared)
 
 			oldGrW := g.GRW
 			if g.GROUNDWATERFROM == Polygonfile {
@@ -408,6 +412,7 @@ func (session *HermesSession) Run(workingDir string, args []string, logID string
 				}
 			}
 
+			vprobe("day.gw", &g, ZEIT, oldGrW)
 			// *************** AUTOMATIC IRRIGATION (INCL. 2 DAY FORECAST) ***************
 			if g.AUTOIRRI {
 				if g.SAAT[g.AKF.Index] > 0 {
@@ -482,6 +487,7 @@ func (session *HermesSession) Run(workingDir string, args []string, logID string
 				g.UMS = 0
 				g.MZ++
 			}
+			vprobe("day.inputs", &g, ZEIT)
 			g.SCHNORRSUM = g.SCHNORRSUM + g.SCHNORR
 			//************ ERNTE:  SCHRIEB N-POOL WERTEN IN DATEI VNAMstr ************
 			//************  HARVEST: WRITE N-POOL VALUES TO FILE VNAMstr ************
@@ -490,6 +496,7 @@ func (session *HermesSession) Run(workingDir string, args []string, logID string
 			}
 
 			Evatra(&hermesWaterVar, &g, &herPath, ZEIT)
+			vprobe("day.evatra", &g, ZEIT, &hermesWaterVar)
 
 			FSCS := 0.0
 			ZSR := 1.0
@@ -579,8 +586,11 @@ func (session *HermesSession) Run(workingDir string, args []string, logID string
 			} else {
 				STEPS, WDT = 1, 1
 			}
+			vprobe("day.steps", &g, ZEIT, WDT, STEPS, ZSR)
 			for SUBD := 1; SUBD <= int(STEPS); SUBD++ {
+				vprobe("sub.pre", &g, ZEIT, SUBD, WDT, &hermesWaterVar)
 				Water(WDT, SUBD, ZEIT, &g, &hermesWaterVar)
+				vprobe("sub.water", &g, ZEIT, SUBD, WDT, &hermesWaterVar)
 				if SUBD == 1 {
 					SWC := 0.0
 					SWC1 = 0
@@ -619,9 +629,11 @@ func (session *HermesSession) Run(workingDir string, args []string, logID string
 						}
 					}
 				}
+				vprobe("sub.crop", &g, ZEIT, SUBD, WDT, &cropSharedVars)
 				// ************ CALCULATION OF NITROGEN DYNAMICS ************
 				// ************ BERECHNUNG DER STICKSTOFFDYNAMIK ************
 				finished, err := Nitro(WDT, SUBD, ZEIT, &g, &nitroSharedVars, &nitroSharedBBBVars, &herPath, &cropOut)
+				vprobe("sub.nitro", &g, ZEIT, SUBD, WDT, finished, err, &nitroSharedVars)
 				if err != nil {
 					return err
 				}
@@ -639,6 +651,7 @@ func (session *HermesSession) Run(workingDir string, args []string, logID string
 				Denitr(&g, false)
 			}
 
+			vprobe("day.denit", &g, ZEIT)
 			g.AKTUELL = g.Kalender(ZEIT)
 			if g.YORGAN == 0 {
 				g.HARVEST = g.OBMAS * g.YIFAK
@@ -744,6 +757,7 @@ func (session *HermesSession) Run(workingDir string, args []string, logID string
 			// ************ ENDE DUENGERBEDARFSPROGNOSE EINSCHUB ************
 			// ************ END OF FERTILIZATION FORECAST INSERTION ************
 
+			vprobe("day.end", &g, ZEIT, JZ, OUTDAY)
 			if ZEIT == g.ENDE {
 				break
 			}
@@ -762,6 +776,7 @@ func (session *HermesSession) Run(workingDir string, args []string, logID string
 		}
 		return nil
 	}()
+	vevent("run.end", "id", logID, "ok", returnedWithErr == nil, "err", returnedWithErr)
 	result := &RunReturn{
 		LogID:   logID,
 		Session: session,
